@@ -244,3 +244,36 @@ package expr
 //@   ensures ok && cmp3(a, b) != CMP_EMPTY && cmp3(a, b) != CMP_ERR && e.Op == Lte ==> err == nil && collTV(res) == ite(cmp3(a, b) != CMP_GT, TV_T, TV_F)
 //@   ensures ok && cmp3(a, b) != CMP_EMPTY && cmp3(a, b) != CMP_ERR && e.Op == Gte ==> err == nil && collTV(res) == ite(cmp3(a, b) != CMP_LT, TV_T, TV_F)
 //@   assigns nothing
+//
+// ---- C12: is / as -------------------------------------------------------------------------------
+// `x is T` (singleton rule): true exactly when the type of x is T or derives from T
+//@ func (e *IsExpression) Evaluate(ctx, input) (res, err)
+//@   requires e != nil && ctx != nil && e.Expr != nil
+//@   let K = ctx.ExternalConstants
+//@   let N = ctx.Now
+//@   let l = evalRes(e.Expr, K, N, input)
+//@   let lerr = evalErr(e.Expr, K, N, input)
+//@   ensures lerr != nil ==> err != nil
+//@   ensures lerr == nil && len(l) == 0 ==> err == nil && len(res) == 0
+//@   ensures lerr == nil && len(l) > 1 ==> is(err, ErrNotSingleton)
+//@   ensures lerr == nil && len(l) == 1 && !typeOfOk(l[0]) ==> err != nil
+//@   ensures lerr == nil && len(l) == 1 && typeOfOk(l[0]) ==> err == nil && collTV(res) == ite(isaS(typeOfS(l[0]), e.Type), TV_T, TV_F)
+//@   assigns nothing
+//
+// `x as T`: x itself (for a choice element, its chosen value) when `x is T`, empty otherwise
+//@ func (e *AsExpression) Evaluate(ctx, input) (res, err)
+//@   requires e != nil && ctx != nil && e.Expr != nil
+//@   let K = ctx.ExternalConstants
+//@   let N = ctx.Now
+//@   let l = evalRes(e.Expr, K, N, input)
+//@   let lerr = evalErr(e.Expr, K, N, input)
+//@   let isT = isaS(typeOfS(l[0]), e.Type)
+//@   ensures lerr != nil ==> err != nil
+//@   ensures lerr == nil && len(l) == 0 ==> err == nil && len(res) == 0
+//@   ensures lerr == nil && len(l) > 1 ==> is(err, ErrNotSingleton)
+//@   ensures lerr == nil && len(l) == 1 && !typeOfOk(l[0]) ==> err != nil
+//@   ensures lerr == nil && len(l) == 1 && typeOfOk(l[0]) && !isT ==> err == nil && len(res) == 0
+//@   ensures lerr == nil && len(l) == 1 && typeOfOk(l[0]) && isT && !implements(l[0], fhir.Base) ==> err == nil && len(res) == 1 && res[0] == l[0]
+//@   ensures lerr == nil && len(l) == 1 && typeOfOk(l[0]) && isT && implements(l[0], fhir.Base) && choiceOfS(l[0]) == nil ==> err == nil && len(res) == 1 && res[0] == l[0]
+//@   ensures lerr == nil && len(l) == 1 && typeOfOk(l[0]) && isT && implements(l[0], fhir.Base) && choiceOfS(l[0]) != nil ==> err == nil && len(res) == 1 && res[0] == choiceOfS(l[0])
+//@   assigns nothing
